@@ -51,7 +51,17 @@ SeqCat == << <<"A", "A", "C", "G", "T">>, <<"C", "C", "G">>, <<"G", "T", "T", "A
 NameOf(p, i) == IF p = 2 THEN StarNames[i] ELSE IF p = 6 THEN CandNames[i] ELSE LetterNames[i]
 SegCnt(p, i) == IF p = 2 THEN (CASE i = 1 -> <<7, -1, -1>> [] i = 2 -> <<-1, -1, 1>> [] OTHER -> <<-1, 8, -1>>)
                 ELSE (CASE i = 1 -> <<10, -1, 7>> [] i = 2 -> <<-1, 9, -1>> [] i = 3 -> <<-1, -1, -1>> [] OTHER -> <<3, -1, -1>>)
-SegTags(p, i) == IF i = 1 THEN <<"xx:Z:t">> ELSE <<>>
+\* ordinary tags of every datatype (the copies carry "identical ... tags": name, datatype and
+\* value): Z (also one that reads like a number), A, i, f (also with an integral value), H,
+\* B of several subtypes, J arrays of integers / of floats / mixed / nested / empty
+SegTags(p, i) == CASE i = 1 -> <<"xx:Z:t", "ja:J:[1, 2, 3]", "je:J:[]", "aa:A:c", "ff:f:3", "hh:H:1AFF">>
+                   [] i = 2 -> <<"bc:B:c,-1,2", "bS:B:S,300,2", "bf:B:f,1.5,2", "zz:Z:12", "jf:J:[1.5, 2.5]">>
+                   [] i = 3 -> <<"jm:J:[1, 2.5]", "bI:B:I,70000", "ii:i:-5", "fz:f:1.5", "jn:J:[[1], 2]">>
+                   [] OTHER -> <<>>
+EdgeTags(n) == CASE n % 4 = 0 -> <<"yy:i:1", "ja:J:[1, 2, 3]">>
+                 [] n % 4 = 1 -> <<"je:J:[]", "bC:B:C,1,2">>
+                 [] n % 4 = 2 -> <<"jf:J:[1.5, 2.5]", "ff:f:3", "aa:A:c">>
+                 [] OTHER -> <<"hh:H:1AFF", "zz:Z:12">>
 SegRec(p, i) == [name |-> NameOf(p, i), seq |-> IF p = 2 /\ i = 2 THEN <<>> ELSE SeqCat[i],
                  len |-> Len(SeqCat[i]), ln |-> IF i = 3 THEN 1 ELSE 0,
                  cnt |-> SegCnt(p, i), otags |-> SegTags(p, i)]
@@ -86,7 +96,7 @@ LinkRec(p, s, k) ==
   LET q == s[k]
       C == CatOf(p) IN
   [e1 |-> EndAt(p, C[q].a), e2 |-> EndAt(p, C[q].b), ov |-> OvOf(p, q),
-   cnt |-> LinkCnt(p, q), otags |-> IF Src(p, q) % 4 = 0 THEN <<"yy:i:1">> ELSE <<>>,
+   cnt |-> LinkCnt(p, q), otags |-> IF Src(p, q) % 5 = 4 THEN <<>> ELSE EdgeTags(Src(p, q)),
    eid |-> IF p = 3 THEN "l" \o ToString(k) ELSE "*", twin |-> C[q].twin]
 
 \* containments: [container, its orientation, contained, its orientation, position, overlap]
@@ -101,7 +111,7 @@ ContCat(p) ==
        [n1 |-> N(1), o1 |-> "+", n2 |-> N(1), o2 |-> "-", pos |-> 0, ov |-> 2, cnt |-> <<-1, -1, 7>>]>> >>
 ContRecs(p, c) == LET r == IF p \in {5, 6} THEN <<>> ELSE ContCat(p)[c + 1] IN
    [k \in DOMAIN r |-> [n1 |-> r[k].n1, o1 |-> r[k].o1, n2 |-> r[k].n2, o2 |-> r[k].o2,
-                        pos |-> r[k].pos, ov |-> r[k].ov, cnt |-> r[k].cnt,
+                        pos |-> r[k].pos, ov |-> r[k].ov, cnt |-> r[k].cnt, otags |-> EdgeTags(c + k),
                         eid |-> IF p = 3 THEN "c" \o ToString(k) ELSE "*",
                         v1only |-> IF r[k].n1 = r[k].n2 THEN 1 ELSE 0]]
 
@@ -129,6 +139,17 @@ Next == /\ Len(sel) < MaxLinksOf(prof)
         /\ UNCHANGED <<prof, cont>>
 Spec == Init /\ [][Next]_vars
 
+\* GFA2 internal overlaps (E lines that are neither dovetails nor containments: both intervals
+\* inside their segments, lengths 5, 3, 4), field by field, with count tags: on the first
+\* segment (one of them with itself), and one between the others.  The harness adds them to
+\* a seeded half of the GFA2 texts in which all three segments are defined.
+Internals(p) ==
+  LET A == NameOf(p, 1)  B == NameOf(p, 2)  C == NameOf(p, 3) IN
+  << <<"E", "*", A \o "+", B \o "+", "1", "3", "1", "2", "2M", "RC:i:20", "KC:i:9", "ja:J:[1, 2, 3]">>,
+     <<"E", "i2", A \o "-", C \o "+", "2", "4", "1", "3", "*", "FC:i:14">>,
+     <<"E", "*", A \o "+", A \o "-", "1", "2", "2", "4", "1M", "RC:i:7">>,
+     <<"E", "*", C \o "-", B \o "+", "1", "3", "1", "2", "*", "RC:i:10", "FC:i:3">> >>
+
 -----------------------------------------------------------------------------
 (* text of the tags, for the harness *)
 CntTags(c) == (IF c[1] >= 0 THEN <<"RC:i:" \o ToString(c[1])>> ELSE <<>>)
@@ -140,8 +161,8 @@ Emit == PrintT(<<"CASE", prof,
    [k \in DOMAIN sel |-> LET r == LinkRec(prof, sel, k) IN
         <<r.e1[1], r.e1[2], r.e2[1], r.e2[2], r.ov, CntTags(r.cnt) \o r.otags, r.eid, r.twin>>],
    [k \in DOMAIN ContRecs(prof, cont) |-> LET r == ContRecs(prof, cont)[k] IN
-        <<r.n1, r.o1, r.n2, r.o2, r.pos, r.ov, CntTags(r.cnt), r.eid, r.v1only>>],
-   PathsOf(prof, cont), SetToSeq(SegIdxOf(prof, cont)), cont>>)
+        <<r.n1, r.o1, r.n2, r.o2, r.pos, r.ov, CntTags(r.cnt) \o r.otags, r.eid, r.v1only>>],
+   PathsOf(prof, cont), SetToSeq(SegIdxOf(prof, cont)), cont, Internals(prof)>>)
 
 Policies == {"off", "auto", "equal", "L", "R"}
 Given == <<"cp1", "cp2", "cp3">>
@@ -160,7 +181,7 @@ LLine(r) == [rt |-> "L", name |-> r.eid,
              f |-> <<r.ov>>, num |-> <<>>, ovs |-> <<Cig(r.ov)>>, cnt |-> r.cnt, otags |-> r.otags]
 CLine(r) == [rt |-> "C", name |-> r.eid,
              refs |-> <<[id |-> r.n1, o |-> r.o1], [id |-> r.n2, o |-> r.o2]>>,
-             f |-> <<r.pos, r.ov>>, num |-> <<>>, ovs |-> <<Cig(r.ov)>>, cnt |-> r.cnt, otags |-> <<>>]
+             f |-> <<r.pos, r.ov>>, num |-> <<>>, ovs |-> <<Cig(r.ov)>>, cnt |-> r.cnt, otags |-> r.otags]
 LinesOf(p, s, c) ==
   [i \in SegIdxOf(p, c) |-> SLine(SegRec(p, i))]
   \o [k \in DOMAIN s |-> LLine(LinkRec(p, s, k))]
